@@ -137,6 +137,7 @@ pub mod fs {
         action: impl FnOnce() -> io::Result<T>,
         partial: impl FnOnce(usize),
     ) -> io::Result<T> {
+        super::sync::fs_point();
         let mut guard = ctl::STATE.lock().unwrap_or_else(|e| e.into_inner());
         let state = match guard.as_mut() {
             Some(state) => state,
@@ -402,6 +403,8 @@ pub mod sync {
         Unlock(usize),
         Join(usize),
         Exit,
+        /// a file operation is about to start (only when the scheduler was installed with `install_fs`)
+        Yield,
     }
 
     struct ThreadState {
@@ -417,6 +420,9 @@ pub mod sync {
         owners: HashMap<usize, usize>,
         names: Vec<String>,
         queue_locks: usize,
+        writer_locks: usize,
+        /// file operations, the per-file write locks and the counter lock are scheduling points too
+        fs_points: bool,
         pub deadlocked: bool,
     }
 
@@ -432,6 +438,17 @@ pub mod sync {
         use super::*;
 
         pub fn install(seed: u64) {
+            install_with(seed, false);
+        }
+
+        /// as `install`, and every file operation of the facade, every per-file write lock and the counter lock
+        /// is a scheduling point as well: the interleavings of the file operations of different workers are
+        /// chosen by the seed instead of the OS
+        pub fn install_fs(seed: u64) {
+            install_with(seed, true);
+        }
+
+        fn install_with(seed: u64, fs_points: bool) {
             let mut guard = SCHED.lock().unwrap_or_else(|e| e.into_inner());
             *guard = Some(Scheduler {
                 rng: seed.wrapping_mul(0x9E3779B97F4A7C15) ^ 0xD1B54A32D192ED03,
@@ -441,6 +458,8 @@ pub mod sync {
                 owners: HashMap::new(),
                 names: Vec::new(),
                 queue_locks: 0,
+                writer_locks: 0,
+                fs_points,
                 deadlocked: false,
             });
             ME.with(|m| m.set(0));
@@ -526,6 +545,7 @@ pub mod sync {
                     ("unlock", self.names[id].clone(), "ok")
                 }
                 Pending::Join(target) => ("join", format!("t{}", target), "ok"),
+                Pending::Yield => ("fs", "-".to_string(), "ok"),
                 Pending::Exit => {
                     self.threads[chosen].finished = true;
                     ("exit", "-".to_string(), "ok")
@@ -570,6 +590,17 @@ pub mod sync {
         }
     }
 
+    /// called by the fs facade before every file operation
+    pub fn fs_point() {
+        let wanted = {
+            let guard = SCHED.lock().unwrap_or_else(|e| e.into_inner());
+            guard.as_ref().map(|scheduler| scheduler.fs_points).unwrap_or(false)
+        };
+        if wanted {
+            sched_point(Pending::Yield);
+        }
+    }
+
     pub struct Mutex<T> {
         inner: std::sync::Mutex<T>,
         id: Option<usize>,
@@ -583,16 +614,28 @@ pub mod sync {
     impl<T> Mutex<T> {
         pub fn new(value: T) -> Mutex<T> {
             let mut guard = SCHED.lock().unwrap_or_else(|e| e.into_inner());
-            let id = guard.as_mut().map(|scheduler| {
+            let id = guard.as_mut().and_then(|scheduler| {
                 let type_name = std::any::type_name::<T>();
                 let name = if type_name.contains("ExecutionState") {
                     "S".to_string()
+                } else if type_name.contains("PieceState") || type_name == "()" {
+                    // the counter lock and the per-file write locks (solver.rs, writer.rs): managed only when file
+                    // operations are scheduling points, otherwise they are plain std locks (leaves, atomic)
+                    if !scheduler.fs_points {
+                        return None;
+                    }
+                    if type_name == "()" {
+                        scheduler.writer_locks += 1;
+                        format!("w{}", scheduler.writer_locks - 1)
+                    } else {
+                        "P".to_string()
+                    }
                 } else {
                     scheduler.queue_locks += 1;
                     format!("q{}", scheduler.queue_locks - 1)
                 };
                 scheduler.names.push(name);
-                scheduler.names.len() - 1
+                Some(scheduler.names.len() - 1)
             });
             Mutex { inner: std::sync::Mutex::new(value), id }
         }
